@@ -16,15 +16,15 @@ PKG_SEM = "pkg/util/sem"
 PKG_LL = "pkg/util/limitlistener"
 PKG_HS = "pkg/object/httpserver"
 
-IMPL_INV = "TypeOK Conserved ReusableWhenSettled HeldBack CapHoldsWhileUnchanged AppliedInOrder"
+IMPL_INV = "TypeOK Conserved ReusableWhenSettled HeldBack CapHoldsWhileUnchanged AppliedInOrder ChangesApplied NoDoomedResize"
 CONTRACT_INV = "NeverAboveEveryCap"
 CONTRACT_PROPS = "NoAcceptAboveCap RefinesContract"
 
 
-def mc_cfg(ordered, resizes, dial, err, contract=True, sequential=False, caps="{1,2,3}", size=7, dbl=0, restart=0):
+def mc_cfg(ordered, resizes, dial, err, contract=True, sequential=False, caps="{1,2,3}", size=7, dbl=0, restart=0, initcaps=None):
     s = ("SPECIFICATION GSpec\nCONSTANTS\n  Size = %d\n  Caps = %s\n  InitCaps = %s\n  MaxResize = %d\n  MaxDial = %d\n"
          "  MaxErr = %d\n  MaxDbl = %d\n  MaxRestart = %d\n  Ordered = %s\nVIEW view\n" % (
-             size, caps, caps, resizes, dial, err, dbl, restart, "TRUE" if ordered else "FALSE"))
+             size, caps, initcaps or caps, resizes, dial, err, dbl, restart, "TRUE" if ordered else "FALSE"))
     s += "INVARIANTS %s%s\n" % (IMPL_INV, (" " + CONTRACT_INV) if contract else "")
     s += "PROPERTIES NoDrop%s\n" % ((" " + CONTRACT_PROPS) if contract else "")
     if sequential:
